@@ -71,7 +71,7 @@ def case_single(sp, tier):
     """a single output (possibly a single ROW) - Constant with one arbitrary weight must still scale the gradient"""
     set_kernels()
     ai = choice(3, "aggregator_kind")
-    sy = [(), (1,), (1, 1), (2,)][choice(4, "shape_y")]
+    sy = [(), (1,), (1, 1), (2,), (5,), (2, 4)][choice(6, "shape_y")]
     sa = S3[choice(3, "shape_a")]
     spec = dict(leaves=[("a", sa, True), ("b", (2,), True)], ops=[dict(name="f", inputs=["a", "b"], outs=[("y", sy)], deps={(0, 0), (0, 1)})])
     ranks = {"a": 0, "b": 1, "y": 10}
